@@ -61,3 +61,45 @@ def run(ctx, progs, tag="sema"):
                     ctx.corr_disagreements.append({"layer": "I5/I6 sema", "case": t, "impl": a[:500], "model": m[:500]})
         recs.append(r)
     return recs, stats
+
+
+def run_chain(ctx, progs, tag="chain"):
+    """The WHOLE pipeline inside the model: text -> model `tree` (lexer, parser, events, builder) -> model
+    `accessors` (typed AST) -> model `sema`, against the implementation's `sema` on the same text.  Cases whose
+    tree carries escape-sequence diagnostics (oq3_lexer::unescape is not modelled) are skipped."""
+    lines = [G.enc(t) for t in progs]
+    ucpath, _ = G.uclass_table(ctx, progs, C)
+    isema = C.run_impl(ctx, "sema", lines, tag=tag + "-isema")
+    itree = C.run_impl(ctx, "tree", lines, tag=tag + "-itree")
+    mtree = C.run_model(ctx, ["tree", ucpath], lines, tag=tag + "-mtree")
+    mast = C.run_model(ctx, "accessors", mtree, tag=tag + "-macc")
+    idx = [i for i, a in enumerate(mast) if a.startswith("(Program")]
+    msema = dict(zip(idx, C.run_model(ctx, "sema", [mast[i] for i in idx], tag=tag + "-msema")))
+    stats = collections.Counter()
+    for i, t in enumerate(progs):
+        a = isema[i]
+        f = PL.fields(itree[i]) if not PL.canon_panic(itree[i]) else {}
+        if any(x.split(":", 1)[1].startswith(PL.UNESCAPE_MSGS) for x in f.get("clerrors", "").split(",") if ":" in x):
+            stats["escape diagnostics (skipped)"] += 1
+            continue
+        if mast[i].startswith("SYNTAX"):
+            m = "SYNTAX-ERRORS"
+        elif i in msema:
+            m = msema[i]
+        else:
+            m = mast[i]                      # NO-TREE / BAD-TREE / CL-DIFF
+        if m.startswith("BAD-AST"):
+            stats["bad-ast (skipped)"] += 1
+            continue
+        pa, pb = PL.canon_panic(a), PL.canon_panic(m)
+        if m.startswith("NO-TREE"):
+            same = pa is not None           # the parse layers panicked in both
+        elif pa or pb:
+            same = pa == pb
+        else:
+            same = a == m or (a.startswith("SYNTAX") and m.startswith("SYNTAX"))
+        stats["agree" if same else "disagree"] += 1
+        if not same and len(ctx.corr_disagreements) < 20:
+            ctx.corr_disagreements.append({"layer": "whole pipeline inside the model (text -> graph)", "case": t,
+                                           "impl": a[:500], "model": m[:500]})
+    return stats
